@@ -12,10 +12,12 @@ import (
 
 	enginev2alpha2 "github.com/NVIDIA/KAI-scheduler/pkg/apis/scheduling/v2alpha2"
 	"github.com/NVIDIA/KAI-scheduler/pkg/scheduler/actions/allocate"
+	"github.com/NVIDIA/KAI-scheduler/pkg/scheduler/actions/utils"
 	"github.com/NVIDIA/KAI-scheduler/pkg/scheduler/api"
 	"github.com/NVIDIA/KAI-scheduler/pkg/scheduler/api/common_info"
 	"github.com/NVIDIA/KAI-scheduler/pkg/scheduler/api/pod_info"
 	"github.com/NVIDIA/KAI-scheduler/pkg/scheduler/api/pod_status"
+	"github.com/NVIDIA/KAI-scheduler/pkg/scheduler/api/podgroup_info"
 	"github.com/NVIDIA/KAI-scheduler/pkg/scheduler/framework"
 	"github.com/NVIDIA/KAI-scheduler/pkg/scheduler/test_utils"
 	"github.com/NVIDIA/KAI-scheduler/pkg/scheduler/test_utils/jobs_fake"
@@ -55,9 +57,21 @@ func supposedPre(spec int, prio int32) int {
 	return specNonPreemptible
 }
 
+// kinds of "ghost": a ready pending pod group that names a queue nothing can be scheduled in
+const (
+	ghostNone    = iota
+	ghostMissing // the queue is not in the snapshot (deleted, misspelt, dropped by cleanQueueOrphans)
+	ghostOrphan  // the queue is in the snapshot's queue map, its parent is not
+	ghostNonLeaf // the queue has child queues (a department)
+)
+
+var ghostName = []string{"", "missing-queue", "orphan-queue", "non-leaf-queue"}
+
 type alJob struct {
 	UID      int
-	Queue    int // leaf queue id
+	Queue    int // leaf queue id (ghosts: the id of the missing / orphan / non-leaf queue)
+	Ghost    int // ghostNone for a job of a healthy leaf queue
+	NS       string
 	Prio     int32
 	Age      int64 // creation time, seconds after the base time
 	Template int
@@ -86,6 +100,9 @@ type cluster struct {
 	Nodes     []int // GPUs per node
 	Depts     []alDept
 	Queues    []alQueue
+	// leaf queues (quota 0) each under a department of its own (Dept); the department is taken out of the
+	// snapshot's queue map after the plugins opened, so the queue's parent is missing when the jobs are collected
+	Orphans []alQueue
 	Templates []template
 	Jobs      []alJob
 }
@@ -245,6 +262,41 @@ func genCluster(r *u.Rng, pool []int32) cluster {
 	return c
 }
 
+var ghostNamespaces = []string{"", "team-a", "other-ns", "kube-system"}
+
+// addGhosts adds 1-3 ready pending pod groups that can never be scheduled: most name a queue that is not in the
+// snapshot, some a queue whose parent is missing, some a department. Any namespace, any priority, any age, any template.
+func addGhosts(r *u.Rng, c *cluster, pool []int32) {
+	n := r.Range(1, 3)
+	var parents []int
+	seen := map[int]bool{}
+	for _, q := range c.Queues {
+		if !seen[q.Dept] {
+			seen[q.Dept] = true
+			parents = append(parents, q.Dept)
+		}
+	}
+	for k := 0; k < n; k++ {
+		j := alJob{UID: 900 + k + 1, Prio: u.Pick(r, pool), Age: int64(r.Intn(8)), Template: r.Intn(len(c.Templates)),
+			NS: u.Pick(r, ghostNamespaces)}
+		j.Spec = specFor(r, u.Pick(r, []int{specPreemptible, specNonPreemptible}), j.Prio)
+		switch x := r.Intn(10); {
+		case x < 6 || (k == 0 && x < 8):
+			j.Ghost = ghostMissing
+			j.Queue = 9000 + r.Range(1, 2) // two ghosts may name the same missing queue
+		case x < 8:
+			j.Ghost = ghostOrphan
+			o := alQueue{ID: 800 + k + 1, Dept: 1800 + k + 1, Deserved: 0, Limit: -1, Weight: 1, DeservedCPU: -1, LimitCPU: -1}
+			c.Orphans = append(c.Orphans, o)
+			j.Queue = o.ID
+		default:
+			j.Ghost = ghostNonLeaf
+			j.Queue = u.Pick(r, parents)
+		}
+		c.Jobs = append(c.Jobs, j)
+	}
+}
+
 func nodeName(i int) string { return fmt.Sprintf("node%d", i) }
 
 // gateObs is what the real capacity gates answered for a pending job and all its pending pods
@@ -265,12 +317,17 @@ var verdictTerm = []string{"Schedulable", "OverLimit", "NonPreemptibleOverQuota"
 var verdictShort = []string{"ok", "limit", "npquota"}
 
 type alResult struct {
-	Jobs    []jobSpec // pending candidates as the scheduler saw them
+	Jobs    []jobSpec // ready pod groups with a pending pod as the scheduler saw them, ghosts included
 	Running []jobSpec
 	Pre     []preObs
-	Gates   []gateObs
-	Order   []int // UIDs of placed candidates, in order of first allocation
+	Gates   []gateObs // eligible pending jobs only
+	Order   []int     // UIDs of placed candidates, in order of first allocation
 	Placed  map[int]bool
+	// UIDs handed out by the real JobsOrderByQueues after the real InitializeWithJobs(ssn.ClusterInfo.PodGroupInfos)
+	// with the options of the allocate action, popped until empty (before the action runs)
+	Coll []int
+	// UIDs of the jobs the allocate action attempted, in order (one call of the job-level capacity gate per pop)
+	Pops []int
 }
 
 type reporter struct{ failed int }
@@ -319,9 +376,16 @@ func (c cluster) topology() test_utils.TestTopologyBasic {
 			Name: queueStr(q.ID), ParentQueue: queueStr(q.Dept), DeservedGPUs: q.Deserved, MaxAllowedGPUs: q.Limit,
 			GPUOverQuotaWeight: q.Weight, DeservedCPUs: optF(q.DeservedCPU), MaxAllowedCPUs: optF(q.LimitCPU)})
 	}
+	for _, o := range c.Orphans {
+		topo.Departments = append(topo.Departments, test_utils.TestDepartmentBasic{
+			Name: queueStr(o.Dept), DeservedGPUs: -1, MaxAllowedGPUs: -1})
+		topo.Queues = append(topo.Queues, test_utils.TestQueueBasic{
+			Name: queueStr(o.ID), ParentQueue: queueStr(o.Dept), DeservedGPUs: o.Deserved, MaxAllowedGPUs: o.Limit,
+			GPUOverQuotaWeight: o.Weight})
+	}
 	for _, j := range c.Jobs {
-		job := &jobs_fake.TestJobBasic{Name: uidStr(j.UID), QueueName: queueStr(j.Queue), Priority: j.Prio, JobAgeInMinutes: 1,
-			Preemptibility: enginev2alpha2.Preemptibility(specName[j.Spec])}
+		job := &jobs_fake.TestJobBasic{Name: uidStr(j.UID), Namespace: j.NS, QueueName: queueStr(j.Queue), Priority: j.Prio,
+			JobAgeInMinutes: 1, Preemptibility: enginev2alpha2.Preemptibility(specName[j.Spec])}
 		if j.Running != "" {
 			job.RequiredGPUsPerTask = float64(j.RunGPUs)
 			job.RequiredCPUsPerTask = 500
@@ -411,6 +475,10 @@ func (a *allocRunner) run(c cluster, depth int) (res alResult, err error) {
 		}
 	}()
 	ssn := test_utils.BuildSession(c.topology(), a.ctrl)
+	// the plugins are open; now the parents of the orphan queues leave the snapshot's queue map
+	for _, o := range c.Orphans {
+		delete(ssn.ClusterInfo.Queues, common_info.QueueID(queueStr(o.Dept)))
+	}
 	byUID := map[int]alJob{}
 	var pendingUIDs, runningUIDs []int
 	for _, j := range c.Jobs {
@@ -470,6 +538,9 @@ func (a *allocRunner) run(c cluster, depth int) (res alResult, err error) {
 			return res, err
 		}
 		res.Jobs = append(res.Jobs, js)
+		if byUID[uid].Ghost != ghostNone {
+			continue // no queue to ask the gates about
+		}
 		info := ssn.ClusterInfo.PodGroupInfos[common_info.PodGroupID(uidStr(uid))]
 		pods := podsOf(uid)
 		vc, err := verdictOf(ssn.IsJobOverQueueCapacityFn(info, pods))
@@ -493,6 +564,29 @@ func (a *allocRunner) run(c cluster, depth int) (res alResult, err error) {
 			seq = append(seq, uid)
 		}
 	}})
+
+	// what the real collection hands out: InitializeWithJobs over the session's pod groups with the options of the
+	// allocate action, then PopNextJob until empty (reads the session only)
+	jo := utils.NewJobsOrderByQueues(ssn, utils.JobsOrderInitOptions{FilterNonPending: true, FilterUnready: true,
+		MaxJobsQueueDepth: ssn.GetJobsDepth(framework.Allocate)})
+	jo.InitializeWithJobs(ssn.ClusterInfo.PodGroupInfos)
+	for !jo.IsEmpty() {
+		job := jo.PopNextJob()
+		if job == nil {
+			break
+		}
+		res.Coll = append(res.Coll, uidOf(job))
+	}
+
+	// the jobs the action itself attempts: common.AllocateJob asks the job-level capacity gate once per popped job
+	if len(ssn.IsJobOverCapacityFns) == 0 {
+		return res, fmt.Errorf("no job-level capacity gate registered: attempts cannot be observed")
+	}
+	gate := ssn.IsJobOverCapacityFns[0]
+	ssn.IsJobOverCapacityFns[0] = func(job *podgroup_info.PodGroupInfo, tasks []*pod_info.PodInfo) *api.SchedulableResult {
+		res.Pops = append(res.Pops, uidOf(job))
+		return gate(job, tasks)
+	}
 
 	allocate.New().Execute(ssn)
 
@@ -591,7 +685,11 @@ func emitAL(out *u.Out, origin string, c cluster, depth int, res alResult) {
 			qs[i].Leaf = true // a department without queues has no child queues
 		}
 	}
-	order := u.ListOf(res.Order, func(v int) string { return u.Z(int64(v)) })
+	for _, o := range c.Orphans {
+		qs = append(qs, queueSpec{ID: o.ID, Parent: o.Dept, Leaf: true}) // its department is not in the map
+	}
+	zs := func(vs []int) string { return u.ListOf(vs, func(v int) string { return u.Z(int64(v)) }) }
+	order := zs(res.Order)
 	pobs := u.ListOf(res.Pre, func(o preObs) string {
 		return fmt.Sprintf("{| po_uid := %s; po_spec := %s; po_seen := %s |}", u.Z(int64(o.UID)), preTerm[o.Spec], preTerm[o.Seen])
 	})
@@ -599,8 +697,9 @@ func emitAL(out *u.Out, origin string, c cluster, depth int, res alResult) {
 		return fmt.Sprintf("{| go_uid := %s; go_capacity := %s; go_np_quota := %s |}", u.Z(int64(o.UID)),
 			verdictTerm[o.Capacity], verdictTerm[o.NPQuota])
 	})
-	term := fmt.Sprintf("(CAL %s %s %s %s %s %s %s %s)", u.ListOf(qs, queueSpec.term), u.Z(int64(depth)),
-		u.ListOf(res.Jobs, jobSpec.term), order, c.quotasTerm(), u.ListOf(res.Running, jobSpec.term), pobs, gobs)
+	term := fmt.Sprintf("(CAL %s %s %s %s %s %s %s %s %s %s)", u.ListOf(qs, queueSpec.term), u.Z(int64(depth)),
+		u.ListOf(res.Jobs, jobSpec.term), order, c.quotasTerm(), u.ListOf(res.Running, jobSpec.term), pobs, gobs,
+		zs(res.Coll), zs(res.Pops))
 
 	byUID := map[int]alJob{}
 	for _, j := range c.Jobs {
@@ -616,6 +715,15 @@ func emitAL(out *u.Out, origin string, c cluster, depth int, res alResult) {
 		mark := "-"
 		if res.Placed[j.UID] {
 			mark = "+"
+		}
+		if aj := byUID[j.UID]; aj.Ghost != ghostNone {
+			ns := aj.NS
+			if ns == "" {
+				ns = "default"
+			}
+			js = append(js, fmt.Sprintf("%su%d:GHOST(%s q%d ns=%s):p%d:t%d:T%d:%s", mark, j.UID, ghostName[aj.Ghost], j.Queue, ns,
+				j.Prio, j.CTime, j.Shape, preShort(aj.Spec, aj.Prio)))
+			continue
 		}
 		js = append(js, fmt.Sprintf("%su%d:q%d:p%d:t%d:T%d:%s:gate=%s/%s", mark, j.UID, j.Queue, j.Prio, j.CTime, j.Shape,
 			preShort(byUID[j.UID].Spec, byUID[j.UID].Prio), verdictShort[gate[j.UID].Capacity], verdictShort[gate[j.UID].NPQuota]))
@@ -641,9 +749,12 @@ func emitAL(out *u.Out, origin string, c cluster, depth int, res alResult) {
 	for i, t := range c.Templates {
 		ts = append(ts, fmt.Sprintf("T%d=%dx%dgpu+%gmcpu", i, t.Tasks, t.GPUs, t.CPUs))
 	}
-	label := fmt.Sprintf("%salloc %s depth=%s nodes=%v queues=[%s] templates=[%s] running=[%s] jobs(+placed)=[%s] order=%v",
+	for _, o := range c.Orphans {
+		qsShort = append(qsShort, fmt.Sprintf("q%d^%d(parent-not-in-snapshot)", o.ID, o.Dept))
+	}
+	label := fmt.Sprintf("%salloc %s depth=%s nodes=%v queues=[%s] templates=[%s] running=[%s] jobs(+placed)=[%s] order=%v collected=%v attempted=%v",
 		streamPrefix(depth), origin, depthLabel(depth), c.Nodes, strings.Join(qsShort, " "), strings.Join(ts, " "),
-		strings.Join(rs, " "), strings.Join(js, " "), res.Order)
+		strings.Join(rs, " "), strings.Join(js, " "), res.Order, res.Coll, res.Pops)
 	out.Add(term, label)
 	out.Count("kind:alloc")
 	out.Count("alloc-depth:" + depthClass(depth))
@@ -652,6 +763,9 @@ func emitAL(out *u.Out, origin string, c cluster, depth int, res alResult) {
 	// split = one placed, the other not; straddling = priorities on both sides of 100
 	pairs, decided, straddle, straddleExplicit, gated := 0, 0, 0, 0, 0
 	for i, a := range res.Jobs {
+		if byUID[a.UID].Ghost != ghostNone {
+			continue
+		}
 		for _, b := range res.Jobs[i+1:] {
 			if !comparable(a, b) {
 				continue
@@ -677,10 +791,30 @@ func emitAL(out *u.Out, origin string, c cluster, depth int, res alResult) {
 	out.CountN("alloc:comparable-pairs-straddling-100-preemptible", straddleExplicit)
 	out.CountN("alloc:comparable-pairs-refused-by-gate", gated)
 	out.CountN("alloc:jobs", len(res.Jobs))
+	out.CountN("alloc:jobs-collected", len(res.Coll))
+	out.CountN("alloc:jobs-attempted", len(res.Pops))
+	nghost := 0
+	for _, j := range res.Jobs {
+		if g := byUID[j.UID].Ghost; g != ghostNone {
+			nghost++
+			out.Count("alloc-ghost:" + ghostName[g])
+			if byUID[j.UID].NS != "" {
+				out.Count("alloc-ghost:other-namespace")
+			}
+		}
+	}
+	out.Count(fmt.Sprintf("alloc-ghosts-per-run:%d", nghost))
+	if nghost > 0 {
+		out.CountN("alloc:comparable-pairs-next-to-ghosts", pairs)
+		out.CountN("alloc:comparable-pairs-split-next-to-ghosts", decided)
+	}
 	out.CountN("alloc:jobs-placed", len(res.Order))
 	out.CountN("alloc:running-jobs", len(res.Running))
 	for _, j := range res.Jobs {
 		aj := byUID[j.UID]
+		if aj.Ghost != ghostNone {
+			continue
+		}
 		out.Count("alloc-job-pre:" + preShort(aj.Spec, aj.Prio))
 		if aj.Spec == specPreemptible && aj.Prio >= 100 {
 			out.Count("alloc-job:explicit-preemptible-at-or-above-100")
@@ -694,7 +828,7 @@ func emitAL(out *u.Out, origin string, c cluster, depth int, res alResult) {
 	if decided > 0 {
 		out.NonTrivial("al|" + label)
 	}
-	if origin == "gen#0" || origin == "gen#4" {
+	if origin == "gen#0" || origin == "gen#4" || origin == "corpus:readme-priority-with-ghost round=1/24" {
 		out.Sample(map[string]any{"kind": "alloc", "depth": depth, "cluster": c, "placed_order": res.Order, "gates": res.Gates})
 	}
 }
